@@ -22,6 +22,7 @@ def run(ctx):
         return streams.replay(ctx)
     import modelcheck
     mc = modelcheck.run_parser_model(ctx, PROPS)
+    live = modelcheck.run_driver_liveness(ctx)
     scns = scenarios(ctx)
     import drift
     drift.with_steps(scns, every=1 if not ctx.quick else max(1, -(-len(scns) // 1000)))
@@ -32,7 +33,7 @@ def run(ctx):
     ctx.violations += viols
     acc = drift.check(ctx, files)
     vlib.finish(ctx, "model_checking", {
-        "model_acceptance": acc,
+        "model_acceptance": acc, "caller_progress": live,
         "states": mc["distinct"], "transitions": mc["generated"], "traces_validated_against_impl": execs,
         "evaluations": execs, "distinct_nontrivial": len({s.text().split("\n", 1)[1] for s in scns if s.nbytes() > 0}),
         "events_judged": events, "model": mc["what"],
